@@ -144,6 +144,11 @@ func (env *Env) localByName(name string) (Val, bool) {
 
 func (env *Env) lookupPkg(name string) *types.Package {
 	if env.pkg != nil {
+		if path, ok := env.c.eng.aliases[env.pkg.Path()][name]; ok {
+			if p := env.c.eng.tpkgs[path]; p != nil {
+				return p
+			}
+		}
 		for _, imp := range env.pkg.Imports() {
 			if imp.Name() == name {
 				return imp
@@ -461,6 +466,11 @@ func (env *Env) evalBin(e *Expr) Val {
 		var eq string
 		if a.K == KOpaque || b.K == KOpaque {
 			eq = sEq(oneTerm(a, e), oneTerm(b, e))
+		} else if a.K == KIface && (b.K == KStr || b.K == KInt) && b.Ty != nil {
+			// interface compared with a typed constant (e.g. err == types.ErrKeyExists)
+			eq = sAnd("(= "+a.Fs[0].T+" "+smtInt(int64(env.c.eng.typeID(b.Ty)))+")", "(= "+a.Fs[1].T+" "+b.T+")")
+		} else if b.K == KIface && (a.K == KStr || a.K == KInt) && a.Ty != nil {
+			eq = sAnd("(= "+b.Fs[0].T+" "+smtInt(int64(env.c.eng.typeID(a.Ty)))+")", "(= "+b.Fs[1].T+" "+a.T+")")
 		} else {
 			eq = env.c.valEq(a, b)
 		}
@@ -685,7 +695,7 @@ func (env *Env) evalIdx(e *Expr) Val {
 	switch x.K {
 	case KSlice:
 		el := x.Ty.Underlying().(*types.Slice).Elem()
-		l := &Loc{Kind: LElem, Base: x.Fs[0].T, Root: el, Idx: "(+ " + x.Fs[1].T + " " + oneTerm(i, e) + ")", Ty: el}
+		l := &Loc{Kind: LElem, Base: x.Fs[0].T, Root: el, Idx: "(idx " + x.Fs[1].T + " " + oneTerm(i, e) + ")", Ty: el}
 		return c.readLoc(env.st, l)
 	case KOpaque:
 		if x.Sort == "Bytes" {
